@@ -15,7 +15,7 @@ fn main() {
         // development smoke test (decides nothing): every string over the given alphabet up to N bytes
         let n: usize = args[3].parse().unwrap();
         let alphabet: Vec<String> = args[4].split(',').map(|h| String::from_utf8(CRATE::vrt::parse_vals(h)[0].clone()).unwrap()).collect();
-        let fixed = !name.ends_with("_all");
+        let fixed = name.rsplit('_').next().map(|t| t.starts_with("len")).unwrap_or(false);
         let mut work: Vec<String> = vec![String::new()];
         let mut all: Vec<String> = vec![String::new()];
         loop {
